@@ -97,7 +97,7 @@ def cluster_schedules(ctx):
     return [json.load(open(f)) for f in sorted(glob.glob(os.path.join(vlib.SPEC, "consensus", "directed", "*.cluster.json")))]
 
 
-def run_nodes(ctx, behaviours, kinds, shards, test="TestNode"):
+def run_nodes(ctx, behaviours, kinds, shards, test="TestNode", confirm=True):
     inp = ctx.path("in", "schedules.%s.ndjson" % test)
     with open(inp, "w") as fh:
         for b in behaviours:
@@ -152,6 +152,32 @@ def run_nodes(ctx, behaviours, kinds, shards, test="TestNode"):
             feats["reproposal"] += 1
     for k, v in feats.items():
         ctx.cov["runs_with_" + k] = ctx.cov.get("runs_with_" + k, 0) + int(v)
+    # verdicts only from reproducible behaviour: a rejected execution is executed again (real timers make runs
+    # timing dependent); it counts only if a re-execution is rejected for the same clause
+    if confirm and bad:
+        flagged = {}
+        for t, bs in bad.items():
+            flagged.setdefault(t.split(".")[0], set()).update(b["kind"] for b in bs)
+        again = [cases[c]["detail"].get("behaviour") for c in flagged if c in cases]
+        order = [c for c in flagged if c in cases]
+        confirmed = set()
+        for attempt in range(2):
+            todo = [(c, b) for c, b in zip(order, again) if c not in confirmed and b]
+            if not todo:
+                break
+            sub = vlib.Ctx.__new__(vlib.Ctx)
+            sub.__dict__.update(ctx.__dict__)
+            sub.notes, sub.cov = [], {}
+            rr = run_nodes(sub, [b for _, b in todo], kinds, min(shards, len(todo)), test=test, confirm=False)
+            got = [r for r in rr if not r.get("summary")]
+            for (c, _), r in zip(todo, sorted(got, key=lambda r: int(str(r["case"])[1:]))):
+                if r.get("status") == "violation" and r.get("key", "").split(":")[-1] in flagged[c]:
+                    confirmed.add(c)
+        for c in order:
+            if c not in confirmed:
+                ctx.notes.append("UNREPRODUCED rejection (not counted): %s %s" % (c, sorted(flagged[c])))
+                for t in [t for t in bad if t.split(".")[0] == c]:
+                    del bad[t]
     for t, bs in other.items():
         ctx.notes.append("sibling clause rejected: %s %s (behaviour: %s)" % (t, [(b["kind"], b["seq"]) for b in bs],
                          json.dumps((cases.get(t.split(".")[0]) or {}).get("detail", {}).get("behaviour"))[:1500]))
